@@ -48,8 +48,16 @@ def run(ctx):
         for iv in (0, 1, 2):
             for n in BEH_LENS:
                 cases.add((m, iv, 0, n))
-    cases = sorted(cases)
-    write_ndjson(os.path.join(d, "modecases.ndjson"), [{"mode": c[0], "iv": c[1], "fam": c[2], "len": c[3]} for c in cases])
+    cases = sorted(c + (7,) for c in cases)
+    # other keys, interleaved with the usual one (the driver hands every key over in one reused buffer), and inputs past 64 KiB
+    extra = []
+    for m in MODES:
+        for n in (0, 15, 16, 33):
+            for k in (8, 7, 9, 8):
+                extra.append((m, 1, 0, n, k))
+    extra += [("ecb", 0, 0, 65536, 7), ("cbc", 1, 0, 65537, 8)] + ([("cfb", 1, 0, 70001, 7), ("ofb", 2, 0, 131072, 7), ("ecb", 0, 0, 262144, 9)] if thorough else [])
+    cases = cases + extra
+    write_ndjson(os.path.join(d, "modecases.ndjson"), [{"mode": c[0], "iv": c[1], "fam": c[2], "len": c[3], "key": c[4]} for c in cases])
     with open(os.path.join(d, "mtab.cfg"), "w") as f:
         f.write('SPECIFICATION Spec\nCONSTANTS\n CasesFile = "modecases.ndjson"\n')
     r = ctx.tlc("ModesTab", "mtab.cfg", workers=ncpu, timeout=3300)
@@ -65,7 +73,7 @@ def run(ctx):
     ok = 0
     for row in rows:
         c = row["case"]
-        g = obs.get(json.dumps({"mode": c["mode"], "iv": c["iv"], "fam": c["fam"], "len": c["len"]}, sort_keys=True))
+        g = obs.get(json.dumps({"mode": c["mode"], "iv": c["iv"], "fam": c["fam"], "len": c["len"], "key": c["key"]}, sort_keys=True))
         if g is None:
             g = obs.get(json.dumps(c, sort_keys=True))
         if g is None:
@@ -99,7 +107,7 @@ def run(ctx):
     # behaviours with SetIV interleaved
     write_ndjson(os.path.join(d, "modetable.ndjson"),
                  [{"mode": x["case"]["mode"], "iv": x["case"]["iv"], "fam": x["case"]["fam"], "len": x["case"]["len"], "ct": x["expect"]}
-                  for x in rows if x["case"]["fam"] == 0 and x["case"]["len"] in BEH_LENS])
+                  for x in rows if x["case"]["key"] == 7 and x["case"]["fam"] == 0 and x["case"]["len"] in BEH_LENS])
     nsim = 1500 if thorough else 150
     with open(os.path.join(d, "msim.cfg"), "w") as f:
         f.write('SPECIFICATION Spec\nCONSTANTS\n ModeSet = {"ecb", "cbc", "cfb", "ofb"}\n IvIds = {0, 1, 2}\n LenSet = {%s}\n MaxOps = 6\nCONSTRAINT Emit\n'
